@@ -38,6 +38,39 @@ where go : List String → String
           let r := s!"{st} req {s} {c}"
           if st = 200 then r ++ " " ++ showEntries es else r
     | _, _, _, _, _, _ => "bad-op"
+  | "gep" :: liS :: tsS :: tree :: rest =>
+    match unhexStr liS, unhexStr tsS, parseNat? tree with
+    | some liS, some tsS, some tree =>
+      let leafAndRest : Option (Option BLeaf × List String) := match rest with
+        | "-" :: r => some (none, r)
+        | "leaf" :: i :: v :: x :: r =>
+          (match parseInt? i, fromHex v, fromHex x with
+          | some i, some v, some x => some (some ⟨i, v, x⟩, r)
+          | _, _, _ => none)
+        | _ => none
+      match leafAndRest with
+      | none => "bad-op"
+      | some (leaf, r) =>
+        let proof : Option (Option (List Bytes)) := match r with
+          | ["-"] => some none
+          | "proof" :: n :: hs =>
+            (match parseNat? n, hs.mapM fromHex with
+            | some n, some hs => if hs.length = n then some (some hs) else none
+            | _, _ => none)
+          | [] => some none
+          | _ => none
+        match proof with
+        | none => "bad-op"
+        | some proof =>
+          match getEntryAndProofRequest liS tsS with
+          | none => "400 none"
+          | some (li, ts) =>
+            let (st, body) := getEntryAndProofRespond ts tree leaf proof
+            let r := s!"{st} req {li} {ts}"
+            match st, body with
+            | 200, some (v, x, p) => r ++ " " ++ joinSp ([hexOrDash v, hexOrDash x, toString p.length] ++ p.map hexOrDash)
+            | _, _ => r
+    | _, _, _ => "bad-op"
   | _ => "bad-op"
 
 def run (_ : List String) : IO UInt32 := do
